@@ -646,8 +646,10 @@ func toDeleteNotification(n *pb.Notification, timestamp int64) *pb.Notification 
 		d.Delete = []*pb.Path{{Elem: prefix.GetElem(), Element: prefix.GetElement()}}
 	case len(prefix.GetElem()) > 0 || len(path.GetElem()) > 0:
 		// Copy: the stored prefix may be shared with other notifications.
-		elem := make([]*pb.PathElem, 0, len(prefix.GetElem())+len(path.GetElem()))
-		elem = append(append(elem, prefix.GetElem()...), path.GetElem()...)
+		// Either of the two may still use the deprecated string elements.
+		pe, ue := pathElems(prefix), pathElems(path)
+		elem := make([]*pb.PathElem, 0, len(pe)+len(ue))
+		elem = append(append(elem, pe...), ue...)
 		d.Delete = []*pb.Path{{Elem: elem}}
 	default:
 		element := make([]string, 0, len(prefix.GetElement())+len(path.GetElement()))
@@ -655,6 +657,20 @@ func toDeleteNotification(n *pb.Notification, timestamp int64) *pb.Notification 
 		d.Delete = []*pb.Path{{Element: element}}
 	}
 	return d
+}
+
+// pathElems returns the elements of p in the structured encoding. A path that
+// only carries the deprecated string elements is converted: an element without
+// keys indexes as its name, exactly as the string did.
+func pathElems(p *pb.Path) []*pb.PathElem {
+	if len(p.GetElem()) > 0 || len(p.GetElement()) == 0 {
+		return p.GetElem()
+	}
+	elem := make([]*pb.PathElem, 0, len(p.GetElement()))
+	for _, e := range p.GetElement() {
+		elem = append(elem, &pb.PathElem{Name: e})
+	}
+	return elem
 }
 
 func (t *Target) gnmiRemove(n *pb.Notification) []*ctree.Leaf {
